@@ -362,6 +362,9 @@ func (u *Universe) prelude() string {
 
 // intRange returns lo, hi (as decimal strings) for an integer type, ok=false otherwise.
 func intRange(t types.Type) (lo, hi string, ok bool) {
+	if t == nil {
+		return "", "", false
+	}
 	b, isb := types.Unalias(t).Underlying().(*types.Basic)
 	if !isb || b.Info()&types.IsInteger == 0 {
 		return "", "", false
